@@ -281,7 +281,7 @@ def process_ob(b, ob, log, seed, replay_dir, prop=None):
     wfut = None
     if ob.witness:   # the witness twin runs concurrently with the main query
         wres = {}
-        def _w(): wres['w'] = run_cbmc(b, ob, witness=True, backend='minisat' if ob.backend in ('kissat', 'cvc5', 'z3', 'cvc5int') else None)
+        def _w(): wres['w'] = run_cbmc(b, ob, witness=True)
         wfut = threading.Thread(target=_w); wfut.start()
     main = run_cbmc(b, ob)
     if wfut: wfut.join()
